@@ -253,6 +253,7 @@ func NewPathBinKey(key []byte) Path {
 func GetDescByPath(desc *thrift.TypeDescriptor, path ...Path) (ret *thrift.TypeDescriptor, err error) {
 	ret = desc
 	for _, p := range path {
+		desc := ret // descriptor of the current level
 		switch desc.Type() {
 		case thrift.STRUCT:
 			switch p.Type() {
